@@ -28,9 +28,13 @@ theorem ObsEq.rfl' (h : Heap) (m : MaybeV) : ObsEq h m m := ⟨rfl, rfl, fun _ =
 def HasTy (T : Ty) (v : GoVal) : Prop :=
   implementsTy T v = true ∨ (v = .nil ∧ (T = .any ∨ ∃ U, T = .maybe U))
 
+/-- a cell of type `t` holds: a value of dynamic type `t`, or — `t` an interface type — nil or a value implementing `t` -/
+def PointeeOK (t : Ty) (x : GoVal) : Prop :=
+  if isIfaceTy t then (x = .nil ∨ implementsTy t x = true) else typeOf? x = some t
+
 /-- a non-nil pointer points to a live cell holding a value of its element type -/
 def WF (h : Heap) (v : GoVal) : Prop :=
-  ∀ t a, v = .ptr t (some a) → ∃ x, h[a]? = some x ∧ typeOf? x = some t
+  ∀ t a, v = .ptr t (some a) → ∃ x, h[a]? = some x ∧ PointeeOK t x
 
 /-! ### one notion of absence -/
 
@@ -233,27 +237,33 @@ theorem C01_clone (c : Ctor) (v : GoVal) (h : Heap) (hty : HasTy c.param v) (hwf
       · cases h1
     have hb : ∀ a', built c (.ptr t (some a')) = .some c.param (.ptr t (some a')) false true := by
       intro a'; cases c <;> simp [built, absent, Ctor.param]
-    obtain ⟨x, hx, hxt⟩ := hwf t a rfl
-    have hif : isIfaceTy t = false := typeOf_not_iface hxt
+    obtain ⟨x, hx, hok⟩ := hwf t a rfl
     have ha : a < h.length := by
       rcases Nat.lt_or_ge a h.length with h1 | h1
       · exact h1
       · rw [List.getElem?_eq_none h1] at hx; cases hx
     have himp' : implementsTy c.param (.ptr t (some h.length)) = true := by
       rw [implementsTy_ptr _ _ _ (some a)]; exact himp
-    have hz : typeOf? (zeroOf t) = some t := by
-      cases x <;> simp [typeOf?] at hxt <;> subst hxt <;> rfl
     have hfr : ∀ b, b < h.length → ((h ++ [zeroOf t]).set h.length x)[b]? = h[b]? := by
       intro b hb'
       rw [List.getElem?_set_ne (by omega), List.getElem?_append_left hb']
     have hnew : ((h ++ [zeroOf t]).set h.length x)[h.length]? = some x := by simp
     refine ⟨(h ++ [zeroOf t]).set h.length x, built c (.ptr t (some h.length)), mk_eq c _, ?_, ?_, ?_, ?_, ?_, ?_, ?_, hfr, ?_⟩
     · rw [hb, hb]
-      simp [MaybeV.clone, cloneTo, MaybeV.isNil, MaybeV.unwrap, valueOf, RV.kind, kindOf, RV.elem, hx, RV.type, hif,
-        hxt, rvNew, RV.set, hz, bind, Except.bind, pure, Except.pure]
-      cases hT : c.param <;>
-        simp [zeroOf, valueOf, RV.kind, kindOf, RV.isNil, RV.interface, assertTy, hT ▸ himp', justGenerics_eq, absent,
-          bind, Except.bind, pure, Except.pure]
+      cases hif : isIfaceTy t
+      · have hxt : typeOf? x = some t := by simpa [PointeeOK, hif] using hok
+        have hz : typeOf? (zeroOf t) = some t := by
+          cases x <;> simp [typeOf?] at hxt <;> subst hxt <;> rfl
+        simp [MaybeV.clone, cloneTo, MaybeV.isNil, MaybeV.unwrap, valueOf, RV.kind, kindOf, RV.elem, hx, RV.type, hif,
+          hxt, rvNew, RV.set, hz, bind, Except.bind, pure, Except.pure]
+        cases hT : c.param <;>
+          simp [zeroOf, valueOf, RV.kind, kindOf, RV.isNil, RV.interface, assertTy, hT ▸ himp', justGenerics_eq, absent,
+            bind, Except.bind, pure, Except.pure]
+      · simp [MaybeV.clone, cloneTo, MaybeV.isNil, MaybeV.unwrap, valueOf, RV.kind, kindOf, RV.elem, hx, RV.type, hif,
+          rvNew, RV.set, bind, Except.bind, pure, Except.pure]
+        cases hT : c.param <;>
+          simp [zeroOf, valueOf, RV.kind, kindOf, RV.isNil, RV.interface, assertTy, hT ▸ himp', justGenerics_eq, absent,
+            bind, Except.bind, pure, Except.pure]
     · rw [hb, hb]; rfl
     · rw [hb, hb]; rfl
     · rw [hb, hb]; rfl
@@ -276,6 +286,10 @@ example : HasTy (Ctor.generics (.ptr (.int .int))).param (.ptr (.int .int) (some
     ∧ WF [.int .int 7] (.ptr (.int .int) (some 0)) :=
   ⟨Or.inl rfl, Or.inl rfl, fun t a e => by cases e; exact ⟨_, rfl, rfl⟩⟩
 
+/-- non-vacuity for a pointer to an `interface{}` variable (holding an int, or nil) -/
+example : WF [.int .int 7, .nil] (.ptr .any (some 0)) ∧ WF [.int .int 7, .nil] (.ptr .any (some 1)) :=
+  ⟨fun t a e => by cases e; exact ⟨_, rfl, Or.inr rfl⟩, fun t a e => by cases e; exact ⟨_, rfl, Or.inl rfl⟩⟩
+
 /-! ### totality -/
 
 theorem built_param (c : Ctor) (v : GoVal) : (built c v).param = c.param := by
@@ -292,13 +306,13 @@ theorem toPtr_ok (c : Ctor) (v : GoVal) (h : Heap) (hwf : WF h v) : ∃ r, (buil
       cases p with
       | none => simp [absent] at hab
       | some a =>
-        obtain ⟨x, hx, hxt⟩ := hwf t a rfl
-        have hif : isIfaceTy t = false := typeOf_not_iface hxt
-        simp only [MaybeV.toPtr, fpIsPtr, fpKind, valueOf, RV.kind, kindOf, indirect, RV.elem, hx, hif, RV.interface, bind,
-          Except.bind, pure, Except.pure, Bool.not_false, Bool.and_true, decide_true, if_true, Bool.false_eq_true, if_false]
-        split
-        · exact ⟨_, rfl⟩
-        · split <;> exact ⟨_, rfl⟩
+        obtain ⟨x, hx, _⟩ := hwf t a rfl
+        cases hif : isIfaceTy t <;>
+        · simp only [MaybeV.toPtr, fpIsPtr, fpKind, valueOf, RV.kind, kindOf, indirect, RV.elem, hx, hif, RV.interface, bind,
+            Except.bind, pure, Except.pure, Bool.not_false, Bool.and_true, decide_true, if_true, Bool.false_eq_true, if_false]
+          split
+          · exact ⟨_, rfl⟩
+          · split <;> exact ⟨_, rfl⟩
     | _ => exact ⟨_, rfl⟩
   · cases c with
     | just => simp [built, hab, MaybeV.toPtr, pure, Except.pure]
@@ -331,7 +345,7 @@ theorem cloneTo_nonptr (c : Ctor) (v d : GoVal) (h : Heap) (hty : HasTy c.param 
 
 /-- `CloneTo` of a non-nil pointer into any destination of the same static type: nil / not a pointer (a fresh copy is
     returned) or a live pointer of the same pointer type (the copy is written through it) -/
-theorem cloneTo_ptr_ok (T t : Ty) (a : Nat) (h : Heap) (d x : GoVal) (hx : h[a]? = some x) (hxt : typeOf? x = some t)
+theorem cloneTo_ptr_ok (T t : Ty) (a : Nat) (h : Heap) (d x : GoVal) (hx : h[a]? = some x) (hok : PointeeOK t x)
     (himp : implementsTy T (.ptr t (some a)) = true) (hwd : WF h d)
     (hsame : ∀ t' b, d = .ptr t' (some b) → t' = t) :
     ∃ r, cloneTo h T (.some T (.ptr t (some a)) false true) d = .ok r := by
@@ -341,32 +355,53 @@ theorem cloneTo_ptr_ok (T t : Ty) (a : Nat) (h : Heap) (d x : GoVal) (hx : h[a]?
     · rw [List.getElem?_eq_none h1] at hx; cases hx
   have himp' : implementsTy T (.ptr t (some h.length)) = true := by
     rw [implementsTy_ptr _ _ _ (some a)]; exact himp
-  have hz : typeOf? (zeroOf t) = some t := by
-    cases x <;> simp [typeOf?] at hxt <;> subst hxt <;> rfl
-  have hif : isIfaceTy t = false := typeOf_not_iface hxt
-  have hfr : ∀ b, b < h.length → ((h ++ [zeroOf t]).set h.length x)[b]? = h[b]? := by
-    intro b hb'
-    rw [List.getElem?_set_ne (by omega), List.getElem?_append_left hb']
-  cases d with
-  | ptr t' p =>
-    cases p with
-    | none =>
+  cases hif : isIfaceTy t
+  · -- pointer to a variable of a concrete type
+    have hxt : typeOf? x = some t := by simpa [PointeeOK, hif] using hok
+    have hz : typeOf? (zeroOf t) = some t := by
+      cases x <;> simp [typeOf?] at hxt <;> subst hxt <;> rfl
+    cases d with
+    | ptr t' p =>
+      cases p with
+      | none =>
+        simp [cloneTo, MaybeV.isNil, MaybeV.unwrap, valueOf, RV.kind, kindOf, RV.elem, hx, hif, RV.type, hxt, rvNew, RV.set, hz,
+          RV.isNil, RV.interface, assertTy, himp', justGenerics_eq, bind, Except.bind, pure, Except.pure]
+      | some b =>
+        obtain ⟨y, hy, hyok⟩ := hwd t' b rfl
+        have ht' : t' = t := hsame t' b rfl
+        subst ht'
+        have hyt : typeOf? y = some t' := by simpa [PointeeOK, hif] using hyok
+        have hb : b < h.length := by
+          rcases Nat.lt_or_ge b h.length with h1 | h1
+          · exact h1
+          · rw [List.getElem?_eq_none h1] at hy; cases hy
+        have hfr' : (h ++ [x])[b]? = some y := by rw [List.getElem?_append_left hb]; exact hy
+        simp [cloneTo, MaybeV.isNil, MaybeV.unwrap, valueOf, RV.kind, kindOf, RV.elem, hx, hif, RV.type, hxt, rvNew, RV.set, hz,
+          RV.isNil, hfr', hyt, justGenerics_eq, bind, Except.bind, pure, Except.pure]
+    | _ =>
       simp [cloneTo, MaybeV.isNil, MaybeV.unwrap, valueOf, RV.kind, kindOf, RV.elem, hx, hif, RV.type, hxt, rvNew, RV.set, hz,
         RV.isNil, RV.interface, assertTy, himp', justGenerics_eq, bind, Except.bind, pure, Except.pure]
-    | some b =>
-      obtain ⟨y, hy, hyt⟩ := hwd t' b rfl
-      have ht' : t' = t := hsame t' b rfl
-      subst ht'
-      have hb : b < h.length := by
-        rcases Nat.lt_or_ge b h.length with h1 | h1
-        · exact h1
-        · rw [List.getElem?_eq_none h1] at hy; cases hy
-      have hfr' : (h ++ [x])[b]? = some y := by rw [List.getElem?_append_left hb]; exact hy
-      simp [cloneTo, MaybeV.isNil, MaybeV.unwrap, valueOf, RV.kind, kindOf, RV.elem, hx, hif, RV.type, hxt, rvNew, RV.set, hz,
-        RV.isNil, hfr', hyt, justGenerics_eq, bind, Except.bind, pure, Except.pure]
-  | _ =>
-    simp [cloneTo, MaybeV.isNil, MaybeV.unwrap, valueOf, RV.kind, kindOf, RV.elem, hx, hif, RV.type, hxt, rvNew, RV.set, hz,
-      RV.isNil, RV.interface, assertTy, himp', justGenerics_eq, bind, Except.bind, pure, Except.pure]
+  · -- pointer to an interface-typed variable: the Values involved are of kind Interface
+    cases d with
+    | ptr t' p =>
+      cases p with
+      | none =>
+        simp [cloneTo, MaybeV.isNil, MaybeV.unwrap, valueOf, RV.kind, kindOf, RV.elem, hx, hif, RV.type, rvNew, RV.set,
+          RV.isNil, RV.interface, assertTy, himp', justGenerics_eq, bind, Except.bind, pure, Except.pure]
+      | some b =>
+        obtain ⟨y, hy, _⟩ := hwd t' b rfl
+        have ht' : t' = t := hsame t' b rfl
+        subst ht'
+        have hb : b < h.length := by
+          rcases Nat.lt_or_ge b h.length with h1 | h1
+          · exact h1
+          · rw [List.getElem?_eq_none h1] at hy; cases hy
+        have hfr' : (h ++ [x])[b]? = some y := by rw [List.getElem?_append_left hb]; exact hy
+        simp [cloneTo, MaybeV.isNil, MaybeV.unwrap, valueOf, RV.kind, kindOf, RV.elem, hx, hif, RV.type, rvNew, RV.set,
+          RV.isNil, hfr', justGenerics_eq, bind, Except.bind, pure, Except.pure]
+    | _ =>
+      simp [cloneTo, MaybeV.isNil, MaybeV.unwrap, valueOf, RV.kind, kindOf, RV.elem, hx, hif, RV.type, rvNew, RV.set,
+        RV.isNil, RV.interface, assertTy, himp', justGenerics_eq, bind, Except.bind, pure, Except.pure]
 
 /-- what a caller must respect for the two observers that take more than a plain value: a `FlatMap` callback that
     itself returns, and a `CloneTo` destination that is a live pointer of the same pointer type as `v` (or nil /
